@@ -18,9 +18,10 @@ def main(payload):
     caps = {}
 
     def fail(key, what, **kw):
-        cls = key.split(':')[0]
+        from contracts.b_lib import is_known
+        cls = key.split(':')[0] + (':known' if is_known(f'C17.B.{key}') else '')
         caps[cls] = caps.get(cls, 0) + 1
-        if caps[cls] <= (8 if cls == 'quant.sublist' else 30):
+        if caps[cls] <= (8 if cls.endswith(':known') else 30):
             failures.append(dict(key=f'C17.B.{key}', what=what, replayed=True, **kw))
 
     # ---------------------------------------------------------------------------------------------------------------
